@@ -82,3 +82,17 @@ Theorem C02_resolver_percall_all_done_at_rest :
     forall i, In i (subm (dbase d)) -> fdone (getf (dbase d) i) = true.
 Proof. intros c n prog d H1 H2 H3 H4 H5 H6 H7. exact (proj1 (proj2 (dep_rest_step c n prog d H1 H2 H3 H4 H5 H6 H7))). Qed.
 Print Assumptions C02_resolver_percall_all_done_at_rest.
+
+From EL Require Proofs.DepMeasure.
+(* the resolver in front of a block executor makes progress under every schedule: every step of
+   every thread decreases a natural-number measure, except the sleep of the resolver's idle loop
+   while no parked call is ready (and, before shutdown, the outer queue is empty) — the only
+   fruitless poll there is (Proofs/DepMeasure.v) *)
+Theorem C02_resolver_progress_measure :
+  forall c n k0 prog d t d' l,
+    dinner c = IBlock k0 ->
+    wf_prog n prog -> wf_deps c n -> dreach c (dinit n prog) d -> dstep c d t = Some (d', l) ->
+    (t = TR -> DepMeasure.r_polling c d = false) -> (t = TD -> d_polling (xs d) = false) ->
+    DepMeasure.dmu c n d' < DepMeasure.dmu c n d.
+Proof. exact DepMeasure.dstep_decreases. Qed.
+Print Assumptions C02_resolver_progress_measure.
